@@ -123,8 +123,12 @@ func (ts *treeStorage) Remove(id TreeID) {
 		// after we're done locally and then it needs to be kept around for some time
 		case <-timer.C:
 			ts.Lock()
-			delete(ts.trees, id)
-			delete(ts.cancellations, id)
+			// the removal may have been cancelled (or cancelled and scheduled
+			// again) while this routine was waiting for the lock
+			if ts.cancellations[id] == c {
+				delete(ts.trees, id)
+				delete(ts.cancellations, id)
+			}
 			ts.Unlock()
 		case <-c:
 			timer.Stop()
